@@ -180,6 +180,40 @@ def correspondence(ctx):
     st["todo_request_sequences"] = ntodo
     return st, dis + tdis
 
+def _signed_atom_chunk(args):
+    """formulas over an atom and its classical negation (and over near-namesakes) in one program: every order of the statements,
+    a statement repeated, the statements spread over two inputs — one set of answer sets"""
+    import itertools
+    seed, n = args
+    r = random.Random(seed)
+    fails, cnt = [], 0
+    A = ["p", "-p", "p(1)", "-p(1)", "q"]
+    for _ in range(n):
+        a, b = r.sample(A, 2) if r.random() < 0.5 else r.choice([("p", "-p"), ("-p", "p"), ("p(1)", "-p(1)")])
+        shapes = [":- &tel {{ {} }}.", "w :- not &tel {{ {} }}.", ":- not &tel {{ < {} | {} }}.", "v :- not not &tel {{ > {} }}.", ":- &tel {{ <? {} }}, not &tel {{ {} }}."]
+        sts = ["{ p }.", "{ -p }.", "{ p(1) }. { -p(1) }. { q }.",
+               r.choice(shapes).format(*([a] * 2)), r.choice(shapes).format(*([b] * 2))]
+        part = r.choice(["always", "initial", "always"])
+        base = "#program always. " + " ".join(sts[:3]) + " #program " + part + ". " + " ".join(sts[3:])
+        ref = oracles.impl_models(base, 2, dedup=True)
+        if ref[0] == "err":
+            continue
+        variants = []
+        for perm in itertools.permutations(sts[3:]):
+            variants.append("#program always. " + " ".join(sts[:3]) + " #program " + part + ". " + " ".join(perm))
+        variants.append(base + " " + sts[3])
+        variants.append(["#program always. " + " ".join(sts[:3]) + " #program " + part + ". " + sts[4], "#program " + part + ". " + sts[3]])
+        for v in variants:
+            cnt += 1
+            got = oracles.impl_models(v, 2, dedup=True)
+            if "Timeout" in (ref[1], got[1]):
+                continue
+            if got != ref:
+                vt = v if isinstance(v, str) else "\n%%% next input\n".join(v)
+                fails.append({"kind": "signed-atoms", "text": base + "\n%%% versus\n" + vt, "input": [base, v], "base": str(ref)[:300], "variant": str(got)[:300]})
+                break
+    return cnt, fails
+
 def _split_atom_chunk(args):
     """`&tel { F ; G }` (one theory atom, two elements) versus `&tel { F }, &tel { G }` (two theory atoms), in constraints that do and do
     not look ahead, in programs that own F or a super-formula of F elsewhere; all statement orders of the variant"""
@@ -224,12 +258,16 @@ def search(ctx, deep):
     for c, f in par.pmap(_cli_chunk, [(ctx.seed * 1013 + j, 2 if ctx.tier == "quick" else 8) for j in range(ctx.jobs)], ctx.jobs):
         ncli += c
         fails += f
+    nsigned = 0
+    for c, f in par.pmap(_signed_atom_chunk, [(ctx.seed * 1021 + j, 3 if ctx.tier == "quick" else 30) for j in range(ctx.jobs)], ctx.jobs):
+        nsigned += c
+        fails += f
     nsplit = 0
     for c, f in par.pmap(_split_atom_chunk, [(ctx.seed * 1019 + j, 4 if ctx.tier == "quick" else 40) for j in range(ctx.jobs)], ctx.jobs):
         nsplit += c
         fails += f
     rr = random.Random(ctx.seed)
-    return {"base_programs": n * ctx.jobs, "command_line_layouts": ncli, "variants_compared": nvar, "theory_atom_split_variants": nsplit, "horizons": "0..{}".format(H),
+    return {"base_programs": n * ctx.jobs, "command_line_layouts": ncli, "variants_compared": nvar, "theory_atom_split_variants": nsplit, "signed_atom_variants": nsigned, "horizons": "0..{}".format(H),
             "variant_kinds": ["permuted", "duplicated", "two files", "three files, permuted", "one rule per file"],
             "sample": {"program": tl.render_prog(gen_base(rr))}}, fails
 
